@@ -510,6 +510,42 @@ fn c33_check(rt: &tokio::runtime::Runtime, case: &ClCase) -> Result<Option<(bool
     let active_voters: BTreeSet<u64> = voters.intersection(&m.active).cloned().collect();
     let conflicting = m.conflicting();
     let nontrivial = m.has_dup() || (voters.len() % 2 == 0 && active_voters.len() * 2 == voters.len());
+    if out.healthy && conflicting {
+        // An id listed as learner and as voter: the property's "distinct voters" is read with the
+        // weakest sound oracle. Every id whose LATEST add_node says voter is a voter (re-adding a
+        // learner as voter is the only promotion there is); an id with an older voter entry and a
+        // later learner entry may or may not count. Healthy must be justified by SOME voter set
+        // between those two bounds.
+        if !out.leader_known {
+            return Err(format!("reported healthy without a known leader; entries={:?} active={:?}", m.entries, m.active));
+        }
+        let mut latest: BTreeMap<u64, bool> = BTreeMap::new();
+        for (id, v) in &m.entries {
+            latest.insert(*id, *v);
+        }
+        let vmin: BTreeSet<u64> = latest.iter().filter(|e| *e.1).map(|e| *e.0).collect();
+        let optional: Vec<u64> = voters.difference(&vmin).cloned().collect();
+        let mut justified = false;
+        for mask in 0..(1u32 << optional.len()) {
+            let mut v = vmin.clone();
+            for (i, id) in optional.iter().enumerate() {
+                if mask & (1 << i) != 0 {
+                    v.insert(*id);
+                }
+            }
+            let a = v.intersection(&m.active).count();
+            if !v.is_empty() && a * 2 > v.len() {
+                justified = true;
+                break;
+            }
+        }
+        if !justified {
+            return Err(format!(
+                "reported healthy but no reading of the voter set justifies it: ids whose latest add_node says voter={:?}, ids with an older voter entry={:?}, active={:?}; config entries={:?}",
+                vmin, optional, m.active, m.entries
+            ));
+        }
+    }
     if out.healthy && !conflicting {
         if !out.leader_known {
             return Err(format!("reported healthy without a known leader; voters={voters:?} active={:?}", m.active));
@@ -533,7 +569,7 @@ fn c33(args: &Args) {
         "exploration",
         "bounded-exhaustive: initial configurations over ids 1..=N (absent/voter/learner, optionally one repeated id) x op sequences (add_node incl. existing id, remove_node, mark_active, mark_inactive) x every active subset x {no leader, each id as leader}; oracle healthy => leader known and |distinct active voters|*2 > |distinct voters|, plus pairwise intersection of all healthy active sets per configuration. Non-trivial = configuration holds a repeated id or the active voters are exactly half; distinct = distinct (config, ops, active set, leader) cases.",
     );
-    ev.assume("an id listed both as voter and learner makes 'distinct voters' ambiguous: such configurations are counted (class conflicting_flags) but not asserted");
+    ev.assume("an id listed both as voter and learner (class conflicting_flags): ids whose latest add_node says voter must count as voters, ids with an older voter entry and a later learner entry may count either way; healthy must be justified by a strict majority of some voter set between those bounds");
     let rt = tokio::runtime::Builder::new_current_thread().build().unwrap();
 
     if let Some(p) = &args.replay {
